@@ -123,14 +123,23 @@ theorem heartbeat_under_faults (c : Cfg) (l : Local) (file : File) (din : Option
      r.l.state = l.state ∧ r.l.tokens = l.tokens ∧ r.l.cur = l.cur ∧ r.file = file ∧ commit din r .failCommit = din) :=
   ⟨PfC09.heartbeat_rejected_is_noop, PfC09.heartbeat_commit_rejected⟩
 
-/-- FINDING (witness): `ClaimTokensFor` while the store rejects the call forgets the lifecycler's own tokens
-(and overwrites the tokens file with an empty list) although the ring still holds them. -/
-theorem claim_under_fault_forgets_tokens_witness :
+/-- `ClaimTokensFor` whose CAS fails — the store rejects the call, the ring is empty, or the commit is rejected —
+claims nothing and forgets nothing: remembered tokens and tokens file are as before, the store is unchanged.
+(Fixed in /repo 392dd5f. Before the fix the closure called `setTokens(nil)` on a failed CAS:
+  c = {id "a", numTokens 2, hasFile}, l.tokens = [3,8], file [3,8], ring a:[3,8] old(LEAVING):[5], claim "old" rejected
+  ⇒ l.tokens = [], file = [] while the ring still held [3,8] — former `claim_under_fault_forgets_tokens_witness`.) -/
+theorem claim_under_fault_keeps_tokens (c : Cfg) (l : Local) (file : File) (din : Option Desc) (frm : String) (now : Int)
+    (gen : Gen) (fault : Fault) (hk : c.kind = .LC) (hs : l.started = true) (hfail : fault ≠ .none ∨ din = none) :
+    let r := step c l file din (.claim frm) now gen fault
+    r.l = l ∧ r.file = file ∧ commit din r fault = din ∧ r.ret = .ok :=
+  PfC09.claim_failed_keeps hk hs hfail
+
+example : -- non-vacuity (the former witness input): nothing is forgotten
     let c : Cfg := { id := "a", numTokens := 2, hasFile := true }
     let l : Local := { started := true, state := .ACTIVE, tokens := [3, 8] }
     let d : Desc := [{ id := "a", state := .ACTIVE, tokens := [3, 8] }, { id := "old", state := .LEAVING, tokens := [5] }]
     let r := step c l (.tokens [3, 8]) (some d) (.claim "old") 9 (fun _ _ => []) .failBefore
-    r.l.tokens = [] ∧ r.file = .tokens [] ∧ commit (some d) r .failBefore = some d := by
+    r.l.tokens = [3, 8] ∧ r.file = .tokens [3, 8] ∧ commit (some d) r .failBefore = some d := by
   decide
 
 /-! ### tokens file -/
